@@ -236,7 +236,7 @@ func runCaseOnce(w *c0203.World, idx int, try int, in Input) (obsOut []StepObs, 
 		env.Mark()
 		switch op.Kind {
 		case "cmd":
-			env.SetOutcomes(c0203.ParseOutcomes(op.Oc, len(in.Tasks)))
+			env.SetOutcomesFor(op.Ev, c0203.ParseOutcomes(op.Oc, len(in.Tasks)))
 			h := 3 * time.Second
 			if slow(op.Oc) {
 				h = 140 * time.Second
